@@ -3,7 +3,7 @@ import os, re
 REAL = ['src/interpret.c', 'lib/lpc/operator.c', 'src/stack.c', 'src/frame.c', 'lib/lpc/svalue.c', 'src/stralloc.c', 'lib/lpc/array.c',
         'lib/lpc/mapping.c', 'lib/lpc/buffer.c', 'lib/lpc/class.c', 'lib/misc/hash.c', 'src/error_context.c']
 STUBS = ['@world/world_base.c', '@world/libc_models.c', '@world/vm_world.c', '@world/world_err.c', '@harness/vm/stubs.c']
-KIND = {'NUM': 0, 'REAL': 1, 'STR': 2, 'ARR': 3, 'BUF': 4, 'OBJ': 5, 'STRSH': 6, 'LVARR': 7, 'LVSTR': 8, 'LVBUF': 9}
+KIND = {'NUM': 0, 'REAL': 1, 'STR': 2, 'ARR': 3, 'BUF': 4, 'OBJ': 5, 'STRSH': 6, 'LVARR': 7, 'LVSTR': 8, 'LVBUF': 9, 'ARRM': 10, 'LVSELF': 11}
 A = ['one bytecode step from a VM state of the engine shape: 3 number locals, 3 number globals, operands of the stated kinds with length <= CAP; larger values and multi-step interactions are outside',
      'LPC errors end the path after the post-step oracles (stack unwinding with the real pop_n_elems); objects/function pointers are released by reference only',
      'unions compiled as structs in the CBMC encoding (DESIGN Corrections 1); hooks VERIF_SYNC_REFED keep punned svalue members in sync']
